@@ -477,6 +477,42 @@ theorem closed_store_selects_nothing (m : List (Nat × Status)) (n : Nat) (r : L
     (forExec ⟨m, List.replicate (k + 1) true⟩ (n :: r)).1 = none := by
   simp [forExec, List.replicate_succ]
 
+/-- a store call touches only the record of its own deposit … -/
+theorem call_local (m : List (Nat × Status)) (c : SCall) (j : Nat) (hj : j ≠ c.key) :
+    lookup (c.run m).2 j = lookup m j := by
+  have hne : ¬ c.key = j := fun e => hj e.symm
+  cases c with
+  | write k v => simp only [SCall.key] at hne; simp [SCall.run, C03.lookup_cons, hne]
+  | read k => rfl
+  | record k => simp only [SCall.key] at hne; simp [SCall.run, storeStatus, C03.lookup_cons, hne]
+  | retry k =>
+    simp only [SCall.key] at hne
+    cases h : lookup m k <;> simp [SCall.run, filterBy, isExecuted, h, C03.lookup_cons, hne]
+
+/-- … and what it answers and leaves there depends only on that record: callers working on DIFFERENT deposits cannot
+    influence each other, whatever the order (so overlapping them must not either — op `overlap` on the real store) -/
+theorem call_depends_on_own_record (m m' : List (Nat × Status)) (c : SCall) (h : lookup m c.key = lookup m' c.key) :
+    (c.run m).1 = (c.run m').1 ∧ lookup (c.run m).2 c.key = lookup (c.run m').2 c.key := by
+  cases c with
+  | write k v => simp [SCall.run, SCall.key, C03.lookup_cons]
+  | read k => simp only [SCall.key] at h; simp [SCall.run, SCall.key, h]
+  | record k => simp [SCall.run, SCall.key, storeStatus, C03.lookup_cons]
+  | retry k =>
+    simp only [SCall.key] at h
+    cases h1 : lookup m k <;> (rw [h1] at h) <;>
+      simp [SCall.run, SCall.key, filterBy, isExecuted, h1, ← h, C03.lookup_cons]
+
+theorem calls_commute (m : List (Nat × Status)) (a b : SCall) (h : a.key ≠ b.key) :
+    (runTwo m a b).1 = (runTwo m b a).2.1 ∧ (runTwo m a b).2.1 = (runTwo m b a).1 := by
+  unfold runTwo
+  constructor
+  · exact (call_depends_on_own_record m (b.run m).2 a (call_local m b a.key h).symm).1
+  · exact (call_depends_on_own_record (a.run m).2 m b (call_local m a b.key (fun e => h e.symm))).1
+
+theorem overlap_PLinear (m : List (Nat × Status)) (a b : SCall) (keys : List Nat) :
+    PLinear m a b (runTwo m b a).2.1 (runTwo m b a).1 (runTwo m b a).2.2 keys :=
+  Or.inr ⟨rfl, rfl, fun _ _ => rfl⟩
+
 /-- **C17 (b).** A deposit whose status cannot be read, or whose stuck-pending record cannot be rewritten, is
     withheld: `isExecuted` answers "re-emit" only if the read succeeded, the record is not `executed`, and — for a
     pending record — the write of `failed` succeeded. -/
@@ -514,6 +550,85 @@ theorem executed_final (st : HState) (ops : List HOp) (hi : Inv st) (hs : seqRun
     simp only [seqRun, Bool.and_eq_true] at hs
     obtain ⟨hinv, hex⟩ := hstep_inv st op hi hs.1
     exact ih _ hinv hs.2 (hex k hk)
+
+/-- **per-operation guarantee, for every state and every history (no sequentiality needed):** a delivery only marks
+    executable records pending, a retry only releases pending records, a timed-out / lost session overwrites no executed
+    record. Hence an `executed` record can only ever be touched by the recording of an execution's outcome. -/
+theorem hstep_stepOk (st : HState) (op : HOp) (n : Nat) : stepOk op st.m (hstep true st op).2.m n = true := by
+  unfold stepOk
+  rw [List.all_eq_true]
+  intro k _
+  cases op with
+  | deliver ks f =>
+    by_cases hh : st.held = true
+    · simp [hstep, hh]
+    · have hp := C03.forExec_preserves ⟨st.m, f⟩ ks k
+      simp only [hstep, hh, Bool.false_eq_true, if_false]
+      rcases hfe : forExec ⟨st.m, f⟩ ks with ⟨o, s'⟩
+      rw [hfe] at hp
+      cases o <;> (
+        simp only
+        rcases hp with h | ⟨h1, h2⟩
+        · simp [h]
+        · simp [h1, h2])
+  | outcome id ok f => simp
+  | lost id =>
+    simp only [hstep]
+    by_cases h : lookup st.m k = Status.executed <;> simp [h]
+  | retry ds res dest f =>
+    have hm := (filterBy_spec (isMatch res dest) ⟨st.m, f⟩ ds).2.2.1 k
+    simp only [hstep, filterDeposits]
+    rcases hfb : filterBy (isMatch res dest) ⟨st.m, f⟩ ds with ⟨o, s'⟩
+    rw [hfb] at hm
+    simp only at hm ⊢
+    rcases hm with h | ⟨h1, h2, _⟩
+    · simp [h]
+    · simp [h1, h2]
+
+/-- **executed is final, for EVERY history (sequential or not):** an `executed` record can only be changed by the
+    recording of the outcome of an execution that contains it. Deliveries, retries, sessions that run into their
+    signing time-out (however stale) and outcomes of other executions never change it, under any store faults.
+    (E.g. deliver, retry-while-stuck, re-deliver, newer session succeeds, old session times out, retry, re-deliver:
+    the record stays executed.) `executed_final` then shows that in sequential histories no such outcome exists. -/
+theorem executed_final_unless_own_outcome (st : HState) (ops : List HOp) (k : Nat)
+    (hk : lookup st.m k = .executed) (hn : noLaterOutcome true k st ops = true) :
+    lookup (hfinal true st ops).m k = .executed := by
+  induction ops generalizing st with
+  | nil => exact hk
+  | cons op r ih =>
+    simp only [noLaterOutcome, Bool.and_eq_true, Bool.not_eq_true'] at hn
+    apply ih _ _ hn.2
+    cases op with
+    | outcome id ok f =>
+      by_cases hh : st.held = true
+      · simpa [hstep, hh] using hk
+      · simp only [hstep, hh, Bool.false_eq_true, if_false]
+        rcases storeStatus_lookup ⟨st.m, f⟩ (keysOf st id) (if ok then .executed else .failed) k with h | ⟨h, _⟩
+        · rw [h]; exact hk
+        · have := hn.1
+          simp [touches, h] at this
+    | deliver ks f =>
+      have h := hstep_stepOk st (.deliver ks f) (k + 1)
+      simp only [stepOk, List.all_eq_true] at h
+      have := h k (by simp)
+      simp [hk, canExec] at this
+      exact this
+    | lost id => simpa [hstep] using hk
+    | retry ds res dest f =>
+      have h := hstep_stepOk st (.retry ds res dest f) (k + 1)
+      simp only [stepOk, List.all_eq_true] at h
+      have := h k (by simp)
+      simp [hk] at this
+      exact this
+
+/-- the five-step history of a stale session (C03-c1's scenario) keeps the record executed -/
+example :
+    let d : Dep := ⟨2, 97, 0, 0⟩
+    let ops := [HOp.deliver [0] [], .retry [d] 97 2 [], .deliver [0] [], .outcome 1 true [], .lost 0,
+                .retry [d] 97 2 [], .deliver [0] []]
+    ((hrun true init ops).map fun (x : HRes × HState) => lookup x.2.m 0) =
+      [Status.pending, .failed, .pending, .executed, .executed, .executed, .executed] ∧
+    noLaterOutcome true 0 (hfinal true init (ops.take 4)) (ops.drop 4) = true := by decide
 
 /-- a delivery selects only proposals whose record is missing or failed at that moment — never one that is in
     flight (pending) or executed (the per-step form the driver evaluates on the implementation's trace) -/
